@@ -3,7 +3,7 @@
 From Coq Require Import ZArith QArith Qabs List Bool Arith Lia Lqa Permutation Sorted.
 From Verif.Lib Require Import QRound.
 From Verif.Model Require Import Result Munkres ListGrader.
-From Verif.Proofs Require Import Credit MunkresDuality MunkresSpec ListGraderGroup ListGraderAssign ListGrader
+From Verif.Proofs Require Import Credit MunkresDuality MunkresSpec ListGraderGroup ListGraderAssign ListGrader ListGraderTotal
                                  ListGraderFinal.
 Import ListNotations.
 Close Scope Q_scope.
@@ -89,3 +89,90 @@ Section Headline.
     pose proof (Hopt' tau rs' Pt Hrs') as H1. pose proof (Hmax es' Hr') as H2. lra.
   Qed.
 End Headline.
+
+(* ---------- the same with a grouping ---------- *)
+Section HeadlineGrouped.
+  Variables X A : Type.
+  Variable dX : X.
+  Variable check : nat -> A -> ginput X -> option (list (nat * ginput X)) -> option result.
+
+  (* ORDERED, GROUPED.  The reported list belongs to one alternative answer list al; group t was graded by
+     subgrader t against answer t of al, and the k-th entry of that result is reported at the box of the k-th input
+     of group t; no alternative list totals more. *)
+  Theorem ordered_check_grouped : forall solve c alts xs out,
+    lg_ordered c = true -> valid_grouping (lg_grouping c) -> (forall al, In al alts -> cfg_matches A c al) ->
+    check_level X A dX check solve c alts xs = Some out ->
+    let gm := group_map (lg_grouping c) in
+    let gin := groupify dX gm xs in
+    exists al es,
+      In al alts /\ length es = length xs
+      /\ (forall t grp a, nth_error gm t = Some grp -> nth_error al t = Some a ->
+            exists gi r,
+              nth_error gin t = Some gi
+              /\ entries_of gi = map (fun i => nth i xs dX) grp
+              /\ check (gidx c t) a gi (Some (ordered_siblings X A c al gin)) = Some r
+              /\ forall k i, nth_error grp k = Some i ->
+                   exists e, nth_error (entries_of r) k = Some e /\ nth_error es i = Some e)
+      /\ (forall al' es', In al' alts -> perform_check X A dX check solve c al' xs = Some es' ->
+            (total es' <= total es)%Q)
+      /\ out = apply_partial (lg_partial c) es
+      /\ length out = length xs.
+  Proof.
+    intros solve c alts xs out Ho V Hm H gm gin.
+    destruct (check_level_sound X A dX check solve c alts xs out H) as [rs [es [F [Hin [Hmax Hout]]]]].
+    destruct (Forall2_In_r _ _ _ _ F Hin) as [al [Hal Hp]].
+    destruct (ordered_grouped_boxes X A dX check solve c al xs es Ho V (Hm al Hal) Hp) as [L1 Hb].
+    exists al, es. split; [exact Hal|]. split; [exact L1|]. split; [exact Hb|].
+    split; [| split; [exact Hout | subst out; rewrite apply_partial_length; exact L1]].
+    intros al' es' Hal' Hp'. destruct (Forall2_In_l _ _ _ _ F Hal') as [r [Hr Hpr]].
+    rewrite Hp' in Hpr. apply Some_inj in Hpr. subst r. apply Hmax. exact Hr.
+  Qed.
+
+  (* UNORDERED, GROUPED (groups of k boxes, every subgrader result with one non-negative entry per box).  The
+     reported entries are those of a one-to-one assignment of groups to the answers of one alternative list, each
+     at the box of the input it grades, and their SUM is at least the sum of the entries of ANY one-to-one
+     assignment of ANY alternative list. *)
+  Theorem unordered_check_grouped : forall c alts xs out k,
+    lg_ordered c = false -> valid_grouping (lg_grouping c) ->
+    (forall al, In al alts -> length al = list_max (lg_grouping c)) ->
+    1 <= k -> (forall grp, In grp (group_map (lg_grouping c)) -> length grp = k) ->
+    (forall al R, In al alts ->
+       result_matrix X A check al (groupify dX (group_map (lg_grouping c)) xs) = Some R ->
+       forall p r, pick R p = Some r -> well_shaped k r) ->
+    check_level X A dX check solveZ c alts xs = Some out ->
+    let gm := group_map (lg_grouping c) in
+    let gin := groupify dX gm xs in
+    let n := length gm in
+    exists al es R sigma rs,
+      In al alts /\ length es = length xs
+      /\ result_matrix X A check al gin = Some R
+      /\ Permutation sigma (seq 0 n)
+      /\ all_some (map (pick R) (combine (seq 0 n) sigma)) = Some rs
+      /\ ungroupify gm rs = Some es
+      /\ (forall t grp r j i, nth_error gm t = Some grp -> nth_error rs t = Some r -> nth_error grp j = Some i ->
+            exists e, nth_error (entries_of r) j = Some e /\ nth_error es i = Some e)
+      /\ (forall al' R' tau rs', In al' alts -> result_matrix X A check al' gin = Some R' ->
+            Permutation tau (seq 0 n) ->
+            all_some (map (pick R') (combine (seq 0 n) tau)) = Some rs' ->
+            (total (concat (map entries_of rs')) <= total es)%Q)
+      /\ out = apply_partial (lg_partial c) es
+      /\ length out = length xs.
+  Proof.
+    intros c alts xs out k Ho V La Hk Hsz Hws H gm gin n.
+    destruct (check_level_sound X A dX check solveZ c alts xs out H) as [rss [es [F [Hin [Hmax Hout]]]]].
+    destruct (Forall2_In_r _ _ _ _ F Hin) as [al [Hal Hp]].
+    destruct (unordered_grouped_optimal_Z X A dX check c al xs es Ho V (La al Hal) Hp)
+      as [L1 [R [sigma [rs [HR [Ps [Hsel [Hu [Hbox _]]]]]]]]].
+    exists al, es, R, sigma, rs. split; [exact Hal|]. split; [exact L1|]. split; [exact HR|].
+    split; [exact Ps|]. split; [exact Hsel|]. split; [exact Hu|]. split; [exact Hbox|].
+    split; [| split; [exact Hout | subst out; rewrite apply_partial_length; exact L1]].
+    intros al' R' tau rs' Hal' HR' Pt Hrs'.
+    destruct (Forall2_In_l _ _ _ _ F Hal') as [es' [Hr' Hp']].
+    destruct (unordered_grouped_total_max X A dX check c al' xs es' k Ho V (La al' Hal') Hk Hsz
+                (fun R0 HR0 => Hws al' R0 Hal' HR0) Hp')
+      as [R'' [s'' [rs'' [HR'' [_ [_ [_ Hopt']]]]]]].
+    fold gm gin n in HR'', Hopt'.
+    rewrite HR' in HR''. apply Some_inj in HR''. subst R''.
+    pose proof (Hopt' tau rs' Pt Hrs') as H1. pose proof (Hmax es' Hr') as H2. lra.
+  Qed.
+End HeadlineGrouped.
